@@ -152,7 +152,7 @@ PROPS = {
     "C16": P("proof", "cell_attackers_exact / is_cell_attacked_iff: for every consistent board (in particular every board from the "
              "validation gate), every square and colour, the attackers set contains exactly the men of that colour whose capturing "
              "pattern reaches the square (pawn diagonals, knight/king steps, slider ray walks up to the first occupied square); "
-             "king_pos, is_check and checkers follow",
+             "king_pos, is_check and checkers follow; hypothesis-free: is_cell_attacked = cell_attackers non-empty and is_check = checkers non-empty on every board",
              [], "Lean 4 theorems: table exactness (C15) + ray symmetry decided over all squares + set-membership characterisation of the stored piece sets",
              "§6 C16"),
     "C17": P("proof", "over the C13 chain invariant: runSteps_spec / walk_spec (for ANY list of next / prev / to-start / to-end steps the "
